@@ -498,9 +498,9 @@ type tstate struct {
 
 type TTLResult struct {
 	States, Transitions, Depth int
-	DeadlineHit              bool
-	ExpiredObserved          int // states in which at least one key was expired at its own clock
-	SweepRemoved             int
+	DeadlineHit                bool
+	ExpiredObserved            int // states in which at least one key was expired at its own clock
+	SweepRemoved               int
 }
 
 const maxClock = 3
@@ -510,7 +510,9 @@ const lazySec = 48 * 3600
 func RunTTL(s *storemc.Store, u *TTLUniverse, nsOff int32, maxDepth int, col *ev.Collector, label string, dl ev.Deadline) TTLResult {
 	var res TTLResult
 	seen := map[string]bool{}
-	key := func(d storemc.Dump, clock int64) string { return fmt.Sprintf("%d|", clock) + d.Key(func(k string) bool { return len(k) > 0 && k[0] == 10 }) }
+	key := func(d storemc.Dump, clock int64) string {
+		return fmt.Sprintf("%d|", clock) + d.Key(func(k string) bool { return len(k) > 0 && k[0] == 10 })
+	}
 	start := tstate{dump: storemc.Dump{}, clock: 0, model: TModel{m: map[string]*ent{}}}
 	seen[key(start.dump, 0)] = true
 	frontier := []tstate{start}
